@@ -63,7 +63,7 @@ def clone(node, src, dst, is_set, memo):
     return new
 
 
-def norm(node, cl, is_set, memo):
+def _norm(node, cl, is_set, memo):
     """implementation-independent rendering of a node's state graph (keys by identity)."""
     if node is None:
         return None
@@ -74,16 +74,24 @@ def norm(node, cl, is_set, memo):
     leaf = cl['Set' if is_set else 'Bucket']
     if type(node) is leaf:
         return ('L', tuple(id(x) if not isinstance(x, int) else x for x in st[0]),
-                norm(st[1], cl, is_set, memo) if len(st) == 2 else None)
+                _norm(st[1], cl, is_set, memo) if len(st) == 2 else None)
     if st is None:
         return ('T', None)
     if len(st) == 1:
         inner = st[0][0]
         return ('T1', tuple(id(x) if not isinstance(x, int) else x for x in inner[0]),
-                norm(inner[1], cl, is_set, memo) if len(inner) == 2 else None)
+                _norm(inner[1], cl, is_set, memo) if len(inner) == 2 else None)
     items, first = st
-    return ('T', tuple(id(x) if i % 2 else norm(x, cl, is_set, memo) for i, x in enumerate(items)),
-            norm(first, cl, is_set, memo))
+    return ('T', tuple(id(x) if i % 2 else _norm(x, cl, is_set, memo) for i, x in enumerate(items)),
+            _norm(first, cl, is_set, memo))
+
+
+def norm(node, cl, is_set, memo):
+    try:
+        return _norm(node, cl, is_set, memo)
+    except Exception as e:          # noqa: the state handed out by the code under test has no legal form
+        fail('__getstate__ returned a state of no documented form (%s)' % type(e).__name__, {'harness': 'state_step'})
+        return ('malformed', id(node))
 
 
 def check_tree(t, cl, P, m, is_set, what, ctx, sizes=True):
